@@ -209,6 +209,37 @@ class Proc:
             return None
         return socks, total
 
+    def sockets(self):
+        """[(proto, local, remote, state)] of this process' sockets (diagnostics for a descriptor that was not released)."""
+        inodes = set()
+        d = "/proc/%d/fd" % self.pid
+        try:
+            for n in os.listdir(d):
+                try:
+                    t = os.readlink(os.path.join(d, n))
+                except OSError:
+                    continue
+                if t.startswith("socket:["):
+                    inodes.add(t[8:-1])
+        except OSError:
+            return []
+        out = []
+
+        def addr(a):
+            ip, port = a.split(":")
+            return "%s:%d" % (socket.inet_ntoa(bytes.fromhex(ip)[::-1]), int(port, 16)) if len(ip) == 8 else "%s:%d" % (ip, int(port, 16))
+        states = {"01": "ESTABLISHED", "02": "SYN_SENT", "03": "SYN_RECV", "04": "FIN_WAIT1", "05": "FIN_WAIT2", "06": "TIME_WAIT",
+                  "07": "CLOSE", "08": "CLOSE_WAIT", "09": "LAST_ACK", "0A": "LISTEN", "0B": "CLOSING"}
+        for proto in ("tcp", "udp", "tcp6", "udp6"):
+            try:
+                for line in open("/proc/net/" + proto).read().splitlines()[1:]:
+                    f = line.split()
+                    if f[9] in inodes:
+                        out.append((proto, addr(f[1]), addr(f[2]), states.get(f[3], f[3]), "rxq=%d" % int(f[4].split(":")[1], 16)))
+            except OSError:
+                pass
+        return out
+
     def tasks(self):
         try:
             return len(os.listdir("/proc/%d/task" % self.pid))
@@ -354,6 +385,275 @@ class Deployment:
             if time.time() - t0 > cap:
                 return cur
             await asyncio.sleep(0.05)
+
+
+# ---------------------------------------------------------------------------------------------------------------
+# middlebox on the link between client and server (C15 link failures, C08 faults, C11 datagram reordering)
+
+class Link:
+    """One client<->server connection (TCP) or one client source address (UDP) as seen by the middlebox."""
+
+    def __init__(self, n):
+        self.n = n
+        self.c = self.s = None        # sockets towards the client / the server
+        self.tasks = []
+        self.cut = None               # None | "rst" | "fin" | "dark"
+        self.bytes = [0, 0]           # forwarded up / down
+        self.peer = None              # UDP: the client's source address
+
+
+class Middlebox:
+    """Forwards between the client and the real server port.  TCP (tcp, tls, ws, wss links): one upstream connection per
+    accepted connection.  UDP (quic links, Shadowsocks datagrams): one upstream socket per client source address.
+    `cut(link, how)`: "rst" = both connections are reset, "fin" = both are closed in an orderly way after what the box had
+    already read was passed on (later input is read and discarded), "dark" = nothing passes any more (UDP: the only kind)."""
+
+    def __init__(self, server_port, udp=False):
+        self.server_port = server_port
+        self.udp = udp
+        self.links = []
+        self.loop = asyncio.get_event_loop()
+        self.assoc_lock = asyncio.Lock()
+        self.new_link = asyncio.Event()
+        self.hook = None              # UDP: hook(link, direction, data) -> list of datagrams to forward instead
+        if udp:
+            self.sock = socket.socket(socket.AF_INET, socket.SOCK_DGRAM)
+        else:
+            self.sock = socket.socket(socket.AF_INET, socket.SOCK_STREAM)
+            self.sock.setsockopt(socket.SOL_SOCKET, socket.SO_REUSEADDR, 1)
+        self.sock.bind(("127.0.0.1", 0))
+        self.port = self.sock.getsockname()[1]
+        self.sock.setblocking(False)
+        self.atask = None
+        if udp:
+            self.by_peer = {}
+            self.loop.add_reader(self.sock.fileno(), self._udp_from_client)
+        else:
+            self.sock.listen(128)
+            self.atask = asyncio.ensure_future(self._accept())
+
+    # -- TCP
+    async def _accept(self):
+        while True:
+            conn, _ = await self.loop.sock_accept(self.sock)
+            conn.setblocking(False)
+            ln = Link(len(self.links))
+            ln.c = conn
+            self.links.append(ln)
+            self.new_link.set()
+            ln.tasks.append(asyncio.ensure_future(self._serve(ln)))
+
+    async def _serve(self, ln):
+        up = socket.socket(socket.AF_INET, socket.SOCK_STREAM)
+        up.setblocking(False)
+        try:
+            await self.loop.sock_connect(up, ("127.0.0.1", self.server_port))
+        except OSError:
+            up.close()
+            ln.c.close()
+            ln.cut = "rst"
+            ln.closing = True
+            return
+        ln.s = up
+        if ln.cut:
+            # the link was cut while the box was still connecting upstream: that connection goes the same way
+            if ln.cut == "rst":
+                if getattr(ln, "closing", False):
+                    up.close()
+                else:
+                    await self._teardown(ln, True)
+            else:
+                try:
+                    up.shutdown(socket.SHUT_WR)
+                except OSError:
+                    pass
+                ln.tasks.append(asyncio.ensure_future(self._pump(ln, ln.s, ln.c, 1)))
+                asyncio.ensure_future(self._reap(ln))
+            return
+        for sk in (ln.c, up):
+            try:
+                sk.setsockopt(socket.IPPROTO_TCP, socket.TCP_NODELAY, 1)
+            except OSError:
+                pass
+        ln.tasks.append(asyncio.ensure_future(self._pump(ln, ln.c, ln.s, 0)))
+        ln.tasks.append(asyncio.ensure_future(self._pump(ln, ln.s, ln.c, 1)))
+
+    async def _pump(self, ln, src, dst, d):
+        try:
+            while True:
+                data = await self.loop.sock_recv(src, 1 << 16)
+                if not data:
+                    try:
+                        dst.shutdown(socket.SHUT_WR)
+                    except OSError:
+                        pass
+                    return
+                if ln.cut:
+                    continue        # read and discard
+                await self.loop.sock_sendall(dst, data)
+                ln.bytes[d] += len(data)
+        except (ConnectionError, OSError):
+            # one side was reset: reset the other side too (a box that forwards failures)
+            if not ln.cut:
+                ln.cut = "rst"
+                await self._teardown(ln, True)
+        except asyncio.CancelledError:
+            pass
+
+    async def _teardown(self, ln, abortive):
+        """Close both sockets of a link.  Every task that may have a read pending on one of them is cancelled AND awaited
+        first: closing a descriptor that still has a reader registered lets the event loop later remove the reader of
+        whatever new socket got the same descriptor number."""
+        if getattr(ln, "closing", False):
+            return
+        ln.closing = True
+        cur = asyncio.current_task()
+        others = [t for t in ln.tasks if t is not cur and not t.done()]
+        for t in others:
+            t.cancel()
+        for t in others:
+            try:
+                await t
+            except (asyncio.CancelledError, Exception):
+                pass
+        for sk in (ln.c, ln.s):
+            if sk is not None:
+                if abortive:
+                    try:
+                        sk.setsockopt(socket.SOL_SOCKET, socket.SO_LINGER, struct.pack("ii", 1, 0))
+                    except OSError:
+                        pass
+                try:
+                    sk.close()
+                except OSError:
+                    pass
+
+    def cut(self, ln, how):
+        if ln.cut:
+            return
+        ln.cut = how
+        if self.udp:
+            return
+        if how == "rst":
+            asyncio.ensure_future(self._teardown(ln, True))
+        elif how == "fin":
+            for sk in (ln.c, ln.s):
+                if sk is not None:
+                    try:
+                        sk.shutdown(socket.SHUT_WR)
+                    except OSError:
+                        pass
+            # the pumps keep reading (and discarding) until each side has closed too; then the sockets are closed
+            asyncio.ensure_future(self._reap(ln))
+
+    async def _reap(self, ln):
+        for t in ln.tasks[1:]:
+            try:
+                await asyncio.wait_for(asyncio.shield(t), 40)
+            except (asyncio.TimeoutError, asyncio.CancelledError, Exception):
+                pass
+        await self._teardown(ln, False)
+
+    # -- UDP
+    def _udp_from_client(self):
+        while True:
+            try:
+                data, peer = self.sock.recvfrom(1 << 16)
+            except (BlockingIOError, InterruptedError):
+                return
+            except OSError:
+                return
+            ln = self.by_peer.get(peer)
+            if ln is None:
+                ln = Link(len(self.links))
+                ln.peer = peer
+                ln.s = socket.socket(socket.AF_INET, socket.SOCK_DGRAM)
+                ln.s.setblocking(False)
+                ln.s.connect(("127.0.0.1", self.server_port))
+                self.by_peer[peer] = ln
+                self.links.append(ln)
+                self.new_link.set()
+                self.loop.add_reader(ln.s.fileno(), self._udp_from_server, ln)
+            if ln.cut:
+                continue
+            out = [data] if self.hook is None else self.hook(ln, 0, data)
+            for d in out:
+                try:
+                    ln.s.send(d)
+                    ln.bytes[0] += len(d)
+                except OSError:
+                    pass
+
+    def _udp_from_server(self, ln):
+        while True:
+            try:
+                data = ln.s.recv(1 << 16)
+            except (BlockingIOError, InterruptedError):
+                return
+            except OSError:
+                return
+            if ln.cut:
+                continue
+            out = [data] if self.hook is None else self.hook(ln, 1, data)
+            for d in out:
+                try:
+                    self.sock.sendto(d, ln.peer)
+                    ln.bytes[1] += len(d)
+                except OSError:
+                    pass
+
+    def inject(self, ln, direction, data):
+        """Send a datagram of the box's own making on an existing link (replay / garbage)."""
+        try:
+            if direction == 0:
+                ln.s.send(data)
+            else:
+                self.sock.sendto(data, ln.peer)
+        except OSError:
+            pass
+
+    async def wait_new(self, n0, cap=3.0):
+        t0 = time.time()
+        while len(self.links) <= n0:
+            if time.time() - t0 > cap:
+                return None
+            self.new_link.clear()
+            try:
+                await asyncio.wait_for(self.new_link.wait(), 0.2)
+            except asyncio.TimeoutError:
+                pass
+        return self.links[n0]
+
+    async def close(self):
+        tasks = [self.atask] if self.atask else []
+        for ln in self.links:
+            tasks += ln.tasks
+        for t in tasks:
+            if not t.done():
+                t.cancel()
+        for t in tasks:
+            try:
+                await t
+            except (asyncio.CancelledError, Exception):
+                pass
+        if self.udp:
+            try:
+                self.loop.remove_reader(self.sock.fileno())
+            except Exception:
+                pass
+        for ln in self.links:
+            if self.udp and ln.s is not None:
+                try:
+                    self.loop.remove_reader(ln.s.fileno())
+                except Exception:
+                    pass
+            for sk in (ln.c, ln.s):
+                if sk is not None:
+                    try:
+                        sk.close()
+                    except OSError:
+                        pass
+        self.sock.close()
 
 
 # ---------------------------------------------------------------------------------------------------------------
@@ -580,8 +880,10 @@ class TcpFlow:
     reach: "ok" | "refused" (nothing listens at the requested port) | "unresolvable" (a name that does not resolve)
     """
 
-    def __init__(self, fid, kind, host, steps, seed, log, chunk=1 << 16, hostname=None, reach="ok"):
+    def __init__(self, fid, kind, host, steps, seed, log, chunk=1 << 16, hostname=None, reach="ok", mbox=None):
         self.f = fid
+        self.mbox = mbox
+        self.link = None
         self.kind = kind
         self.ip = host                  # address the listener binds
         self.hostname = hostname or host  # what the application asks for
@@ -736,20 +1038,30 @@ class TcpFlow:
     async def run(self, client_port, sync_cap=20.0, end_cap=6.0, dial_cap=6.0):
         """Executes the script; behaviour of the system under test never raises (it is data in the log)."""
         try:
+            if self.mbox is not None:
+                await self.mbox.assoc_lock.acquire()
             try:
-                self.app, self.preface = await open_local(self.kind, client_port, self.hostname, self.port)
-            except HandshakeRefused as e:
-                self._ev("Refused", why=str(e)[:80])
-                return
-            except (ConnectionError, OSError, asyncio.TimeoutError, asyncio.IncompleteReadError) as e:
-                self._ev("Refused", why=type(e).__name__)
-                return
-            self._ev("Open", kind=self.kind, want=self.f, reach=self.reach)
-            self.rtask["app"] = asyncio.ensure_future(self._reader("app", self.app, "down", "AppGot"))
-            if self.preface:
-                self._ev("AppWrote", n=len(self.preface))
-                self.sent["up"] += len(self.preface)
-                await self.app.sendall(self.preface)
+                n0 = len(self.mbox.links) if self.mbox is not None else 0
+                try:
+                    self.app, self.preface = await open_local(self.kind, client_port, self.hostname, self.port)
+                except HandshakeRefused as e:
+                    self._ev("Refused", why=str(e)[:80])
+                    return
+                except (ConnectionError, OSError, asyncio.TimeoutError, asyncio.IncompleteReadError) as e:
+                    self._ev("Refused", why=type(e).__name__)
+                    return
+                self._ev("Open", kind=self.kind, want=self.f, reach=self.reach)
+                self.rtask["app"] = asyncio.ensure_future(self._reader("app", self.app, "down", "AppGot"))
+                if self.preface:
+                    self._ev("AppWrote", n=len(self.preface))
+                    self.sent["up"] += len(self.preface)
+                    await self.app.sendall(self.preface)
+                if self.mbox is not None:
+                    # the client opens this flow's link connection right after the local handshake: the next new link is ours
+                    self.link = await self.mbox.wait_new(n0)
+            finally:
+                if self.mbox is not None:
+                    self.mbox.assoc_lock.release()
             for st in self.steps:
                 op = st[0]
                 if op == "up":
@@ -785,6 +1097,10 @@ class TcpFlow:
                         pass
                 elif op == "wait_dial":
                     await self._wait_dial(dial_cap)
+                elif op == "cut":
+                    if self.link is not None and not self.link.cut:
+                        self._ev("Fault", how=st[1])
+                        self.mbox.cut(self.link, st[1])
             self._ev("Quiesce", wa=self.waited["app"], wt=self.waited["tgt"])
         finally:
             await self.finish()
